@@ -36,6 +36,24 @@ def isChildOfFuel (f : Forest) : Nat → Zone → Zone → Bool
 
 def isChildOf (f : Forest) (a z : Zone) : Bool := isChildOfFuel f maxDepth a z
 
+/-- Number of proper ancestors of `a` (zone.cpp:36-46 counts them in `levels`), if the chain of parents ends within the
+    fuel. -/
+def depthOf (f : Forest) : Nat → Zone → Option Nat
+  | 0, _ => none
+  | n + 1, a =>
+    match f.parent a with
+    | none => some 0
+    | some p => (depthOf f n p).map (· + 1)
+
+/-- Would `Zone::OnAllConfigLoaded` accept the zones `0 … n-1` with at most `bound` proper ancestors each?  (The driver
+    evaluates this on every forest the harness registered; `loadedB_sound` turns it into the hypothesis `Loaded` of
+    the completeness theorems.) -/
+def loadedB (f : Forest) (n bound : Nat) : Bool :=
+  (List.range n).all fun a => (depthOf f (bound + 1) a).isSome
+
+/-- The correspondence runs use zone trees far below the source's limit (the property quantifies over depth ≤ 3). -/
+def harnessLevelBound : Nat := 8
+
 /-- `self->CanAccessObject(object)` (zone.cpp:91-107).  `objZone` is the object's `zone` attribute
     (`none`: unset ⇒ the local zone, zone.cpp:100-101). -/
 def canAccessObject (f : Forest) (localZone self : Zone) (objZone : Option Zone) : Bool :=
